@@ -81,8 +81,20 @@ def gen_case(rng, tier, idx, shard, nshards):
     gi = idx * nshards + shard
     minimizer = ["iminuit", "scipy"][gi % 2]
     ftype = ["xy", "xy", "indexed", "hist"][(gi // 2) % 4]
+    # scipy contours are slow: only in 1 of 4 scipy cases (shifted by idx: every shard and every fit type gets some), and the
+    # "beacon" algorithm (~15 s per contour on an idle machine for a straight line) in one of 8 of those; in the quick tier twice
+    # per run, on a straight line
+    keep_contour = minimizer == "scipy" and ((gi // 2) + idx) % 4 == 1
+    ck = (idx // 4 + shard // 2) % 8
+    if ck == 1 and tier == "quick" and idx >= 8:
+        ck = 2
+    cheap = keep_contour and ck == 1 and tier == "quick"
+    if cheap:
+        ftype = "xy"
     if ftype == "xy":
         fam = str(rng.choice(["poly1", "poly2", "exponential", "trig", "gausspeak", "logistic"], p=[0.25, 0.2, 0.2, 0.15, 0.1, 0.1]))
+        if cheap:
+            fam = "poly1"
         spec = gen.gen_xy_spec(rng, family=fam, cost="chi2", n=int(rng.integers(len(Model(fam).pnames) + 3, 12)), noise=0.05)
     elif ftype == "indexed":
         fam = str(rng.choice(["poly1", "poly2", "exponential", "trig"]))
@@ -129,7 +141,7 @@ def gen_case(rng, tier, idx, shard, nshards):
             word.insert(i, word[i])
     # scipy contours are slow: at most one per word, and only in 1 of 4 scipy cases
     if minimizer == "scipy":
-        keep = ((gi // 2) + idx) % 4 == 1  # (shifted by idx: every shard and every fit type gets some)
+        keep = keep_contour
         seen = False
         w2 = []
         for q in word:
@@ -150,8 +162,7 @@ def gen_case(rng, tier, idx, shard, nshards):
             case["fault"].update(early=True, query=EARLY_QUERIES[(gi // 20) % len(EARLY_QUERIES)], call=int(rng.choice([1, 2, 3, 5, 8, 13])))
     if minimizer == "scipy":
         # the scipy backend has two contour algorithms with their own exits; "beacon" takes ~15 s per contour
-        k = (idx // 4 + shard // 2) % 8
-        case["contour_kwargs"] = [{}, {"algorithm": "beacon"}, {"iterations": 3}, {"initial_points": 2, "iterations": 2}, {}, {"iterations": 3}, {"iterations": 4, "area_scale_factor": 2.0}, {"initial_points": 3, "iterations": 1}][k]
+        case["contour_kwargs"] = [{}, {"algorithm": "beacon"}, {"iterations": 3}, {"initial_points": 2, "iterations": 2}, {}, {"iterations": 3}, {"iterations": 4, "area_scale_factor": 2.0}, {"initial_points": 3, "iterations": 1}][ck]
         if case["contour_kwargs"].get("algorithm") == "beacon" and "contour" in word:
             # rare and expensive: asked first, and not spent on a case whose query is made to fail
             word.remove("contour")
